@@ -34,6 +34,11 @@ var c10Pool = []string{
 	"https://social.example/u/carol", // carol's host without the port: another addressee
 }
 
+// the pool the generators below draw from (the first c10CurBias ids are presentations of one addressee): c10Pool,
+// or the wide pool of wideids.go while c10u.go runs
+var c10Cur = c10Pool
+var c10CurBias = 6
+
 var c10Kinds = []string{"Object", "Actor", "Activity", "IntransitiveActivity", "Question", "Collection", "CollectionPage",
 	"OrderedCollection", "OrderedCollectionPage", "Place", "Profile", "Relationship", "Tombstone"}
 
@@ -52,13 +57,11 @@ type c10Ref struct {
 }
 
 func newC10Ref(ids []string, rep *Report) *c10Ref {
-	r := &c10Ref{class: map[string]int{}}
-	var reps []string
 	nf := map[string]c14NF{}
 	for _, s := range ids {
 		nf[s] = c14Norm(s)
 	}
-	eq := func(a, b string) bool {
+	return newC10RefEq(ids, rep, func(a, b string) bool {
 		if a == b {
 			return true
 		}
@@ -66,7 +69,13 @@ func newC10Ref(ids []string, rep *Report) *c10Ref {
 			return strings.EqualFold(a, b)
 		}
 		return c14RefEqual(nf[a], nf[b], false)
-	}
+	})
+}
+
+// the same over a reference comparison of the caller's choice (c10u.go: the wide normal form of c14u.go)
+func newC10RefEq(ids []string, rep *Report, eq func(a, b string) bool) *c10Ref {
+	r := &c10Ref{class: map[string]int{}}
+	var reps []string
 	for _, s := range ids {
 		found := -1
 		for ci, rp := range reps {
@@ -356,9 +365,9 @@ func c10Entry(g *Gen) ap.Item {
 	case 12:
 		return TypedNil(g.Intn(13))
 	case 1, 2:
-		return c10Actor(c10Pool[g.Intn(len(c10Pool))], g.Chance(3, 4))
+		return c10Actor(c10Cur[g.Intn(len(c10Cur))], g.Chance(3, 4))
 	case 3:
-		id := ap.IRI(c10Pool[g.Intn(len(c10Pool))])
+		id := ap.IRI(c10Cur[g.Intn(len(c10Cur))])
 		if g.Chance(1, 2) {
 			return &ap.Object{ID: id, Type: ap.NoteType}
 		}
@@ -366,9 +375,9 @@ func c10Entry(g *Gen) ap.Item {
 	default:
 		// biased towards the alice class so that variants meet
 		if g.Chance(1, 2) {
-			return ap.IRI(c10Pool[g.Intn(6)])
+			return ap.IRI(c10Cur[g.Intn(c10CurBias)])
 		}
-		return ap.IRI(c10Pool[g.Intn(len(c10Pool))])
+		return ap.IRI(c10Cur[g.Intn(len(c10Cur))])
 	}
 }
 
@@ -416,7 +425,7 @@ func c10Random(g *Gen, max int) c10Input {
 
 // ---- odd / malformed stream (correspondence only; the native oracle does not judge these) ----
 func c10OddEntry(g *Gen) ap.Item {
-	id := ap.IRI(c10Pool[g.Intn(len(c10Pool))])
+	id := ap.IRI(c10Cur[g.Intn(len(c10Cur))])
 	switch g.Intn(14) {
 	case 0:
 		return &ap.Object{Type: ap.NoteType} // id-less
@@ -429,7 +438,7 @@ func c10OddEntry(g *Gen) ap.Item {
 	case 4:
 		return &ap.Link{ID: id, Type: ap.LinkType}
 	case 5:
-		return &ap.Link{ID: id, Type: ap.MentionType, Href: ap.IRI(c10Pool[0])}
+		return &ap.Link{ID: id, Type: ap.MentionType, Href: ap.IRI(c10Cur[0])}
 	case 6:
 		return &ap.Link{ID: id} // neither link nor object by its own methods
 	case 7:
@@ -524,9 +533,10 @@ func runC10(seed int64, n int, tier string, outDir string) (*Report, error) {
 	ids = append(ids, "http://EXAMPLE.com/actors/alice/", "https://example.com/things/1", "", "-")
 	ref := newC10Ref(ids, rep)
 
-	hdr := "From AP.Model Require Import Prelude Vocab Pred IriEq Recip.\n" +
+	// (b47) both instances of the model: recipients_m (plain URL grammar) and recipients_u (wide library models)
+	hdr := "From AP.Model Require Import Prelude Vocab Pred IriEq IriEqU Recip RecipList RecipU.\n" +
 		"Definition ok (c : item * outcome (item * item)) : bool := let '(x, o) := c in\n" +
-		"  outcome_eqb (pair_eqb item_eqb item_eqb) (recipients_m x) o.\n"
+		"  outcome_eqb (pair_eqb item_eqb item_eqb) (recipients_m x) o && outcome_eqb (pair_eqb item_eqb item_eqb) (recipients_u x) o.\n"
 	cw := NewCaseWriter(outDir, "Cases_C10", hdr, "item * outcome (item * item)")
 	coqCase := func(in c10Input, label string) {
 		v := c10Build(in)
